@@ -132,6 +132,9 @@ func vfE1FindDeferred(c *Channel, body []byte, wait time.Duration) (*Message, in
 // a whole number of milliseconds, or maxReq. "" if none or ambiguous.
 func vfE1Resolve(pri, t0, t1, maxReq int64) string {
 	lo, hi := pri-t1, pri-t0
+	if hi-lo >= 500000 {
+		return "" // the call took too long (loaded machine): several millisecond counts would fit
+	}
 	var cands []int64
 	k := lo / 1000000
 	for _, m := range []int64{k, k + 1} {
